@@ -28,4 +28,5 @@ def run(tier, seed):
         assumptions=["every lock region of the Go code is one atomic step (runs use GOMAXPROCS(1); data-race freedom is C18's concern)",
                      "targets answer 200; scripted probe and target transports replace the network",
                      "model/M5full.v is hand-written; tied to the code by acceptance of every recorded trace"],
-        forced=[forced.d2_refused_during_redeploy(), forced.deploy_waits_for_rotation(), forced.drain_grants_the_drain_timeout()])
+        forced=[forced.d2_refused_during_redeploy(), forced.deploy_waits_for_rotation(), forced.drain_grants_the_drain_timeout(),
+                forced.stale_probe_result_after_the_deploy()])
